@@ -3,7 +3,7 @@ from ..common import DRIVER
 from .. import corr
 
 def corpus_cases(prop, part):
-    return [["append 2", "busyappend", "reopen"], ["append 1", "twohandles", "reopen", "appendnil", "reopen", "twohandles", "reopen"], ["append 2 save", "saveretry", "reopen", "saveretry", "reopen"], ["append 1", "concappend 8 10", "reopen", "concappend 4 5", "reopen"], ["kill 1 0 1", "reopen"], ["kill 6 150 2", "reopen", "append 2 save", "kill 3 0 0", "reopen"]]
+    return [["append 2", "busyappend", "reopen"], ["append 3", "saveback", "reopen", "append 1", "reopen"], ["append 1", "twohandles", "reopen", "appendnil", "reopen", "twohandles", "reopen"], ["append 2 save", "saveretry", "reopen", "saveretry", "reopen"], ["append 1", "concappend 8 10", "reopen", "concappend 4 5", "reopen"], ["kill 1 0 1", "reopen"], ["kill 6 150 2", "reopen", "append 2 save", "kill 3 0 0", "reopen"]]
 
 def out_kind(line):
     return line.split(" ", 1)[0]
@@ -27,8 +27,10 @@ def gen(rng, tier, n):
             elif x < 0.87:
                 lines.append("appendnil")
             elif x < 0.885:
-                lines.append("saveretry")      # a failed SaveOffset retried with the same offset must reach the database
-            elif x < 0.92:
+                lines.append("saveretry")
+            elif x < 0.9:
+                lines.append("saveback")      # a failed SaveOffset retried with the same offset must reach the database
+            elif x < 0.93:
                 lines.append("busyappend")      # a second connection holds the write lock: Append must not acknowledge
             else:
                 lines.append("reopen")
